@@ -696,6 +696,43 @@ func DFTCounts(e []bool) (lo, hi int) {
 	return
 }
 
+// DFTCountsQuarter is DFTCounts for a sequence whose bin N/4 is decided exactly by the caller: that bin equals
+// (A0-A2) - i(A1-A3), sums of the +-1 values over the residue classes of the index mod 4, so its squared magnitude
+// is an integer that is compared with 2.995732274 n in exact arithmetic. quarterBelow says whether it counts.
+// The other bins are counted as in DFTCounts; ok is false if one of them lies within a relative 1e-9 of the
+// threshold (the input is then not used).
+func DFTCountsQuarter(e []bool, quarterBelow bool) (n1 int, ok bool) {
+	n := len(e)
+	N := 2
+	for N < n {
+		N *= 2
+	}
+	x := make([]complex128, N)
+	for i, b := range e {
+		x[i] = complex(float64(2*one(b)-1), 0)
+	}
+	X := RecFFT(x)
+	T := math.Sqrt(2.995732274 * float64(n))
+	ok = true
+	for i := 0; i < n/2-1; i++ {
+		if i == N/4 {
+			if quarterBelow {
+				n1++
+			}
+			continue
+		}
+		a := cmplx.Abs(X[i])
+		lo, hi := a < T*(1-1e-9), a < T*(1+1e-9)
+		if lo != hi {
+			ok = false
+		}
+		if lo {
+			n1++
+		}
+	}
+	return
+}
+
 // DFTFromCount maps a count N1 to (P, Q).
 func DFTFromCount(n, n1 int) (p, q float64) {
 	n0 := 0.95 * float64(n) / 2
